@@ -24,14 +24,14 @@ type jsonModel struct {
 	stStruct *types.Struct
 	fam      map[*ssa.Function]bool
 	famList  []*ssa.Function
-	reset    *ssa.Function          // first method called on the pooled value
-	entry    *ssa.Call              // the call from parse into the family
-	stackF   int                    // path stack field
-	capF     int                    // recursion cap field
-	guardFn  *ssa.Function          // family function holding the depth guard
-	getter   *ssa.Function          // optional helper that takes the state from the pool (and may reset it) for the entry
+	reset    *ssa.Function                  // first method called on the pooled value
+	entry    *ssa.Call                      // the call from parse into the family
+	stackF   int                            // path stack field
+	capF     int                            // recursion cap field
+	guardFn  *ssa.Function                  // family function holding the depth guard
+	getter   *ssa.Function                  // optional helper that takes the state from the pool (and may reset it) for the entry
 	passIdx  map[*ssa.Function]map[int]bool // wrapper -> result positions that hand a scanner's consumed count straight through
-	wrap     map[*ssa.Function]bool // non-family methods of the state that call into the family on their own receiver
+	wrap     map[*ssa.Function]bool         // non-family methods of the state that call into the family on their own receiver
 }
 
 func getJSON(c *core.Ctx) *jsonModel {
